@@ -597,11 +597,12 @@ Section Oracle.
     specialize (Hbuf c1).
     destruct (feed_all c1 (removelast ls)) as [c2 outs].
     destruct (server_lines (server_init sc) (removelast ls)) as [s2 evs]. cbn [fst snd] in *.
-    unfold sim in Hst. rewrite Hbuf. cbn [c_buf c1]. change MAX_AUTH with 16384.
+    unfold sim in Hst. rewrite Hbuf. cbn [c_buf c1].
+    change (buf_limit current) with 16385. change (16384 + 1) with 16385.
     destruct (c_mode c2) eqn:Em.
     - destruct Hst as [-> _]. unfold conf_of; cbn [s_state].
       destruct (a_state (c_auth c2)); cbn [sstate_of];
-        (destruct (16384 <? N.of_nat (length (last ls []))); cbn [snd];
+        (destruct (16385 <? N.of_nat (length (last ls []))); cbn [snd];
          rewrite ?app_nil_r, ?map_app, Ho; reflexivity).
     - rewrite Hst. cbn [snd]. rewrite app_nil_r. exact Ho.
     - rewrite Hst. cbn [snd]. rewrite app_nil_r. exact Ho.
@@ -697,11 +698,21 @@ Section Closes.
 
   Lemma long_unfinished_line c d x :
     c_mode c = Live -> c_first c = false -> split_crlf (c_buf c ++ d) = [x] ->
-    MAX_AUTH < N.of_nat (length x) ->
+    buf_limit F < N.of_nat (length x) ->
     snd (recv c d) = [OClose] /\ c_mode (fst (recv c d)) = Closed.
   Proof.
     intros Hl Hf Hs Hn. unfold AuthServer.recv. rewrite Hl, Hf. unfold AuthServer.process.
     rewrite Hs. cbn. rewrite Hl. apply N.ltb_lt in Hn. rewrite Hn. cbn. split; reflexivity.
+  Qed.
+
+  (* ... and a remainder within the bound is kept, nothing happens *)
+  Lemma short_unfinished_line c d x :
+    c_mode c = Live -> c_first c = false -> split_crlf (c_buf c ++ d) = [x] ->
+    N.of_nat (length x) <= buf_limit F ->
+    snd (recv c d) = [] /\ c_mode (fst (recv c d)) = Live /\ c_buf (fst (recv c d)) = x.
+  Proof.
+    intros Hl Hf Hs Hn. unfold AuthServer.recv. rewrite Hl, Hf. unfold AuthServer.process.
+    rewrite Hs. cbn. rewrite Hl. apply N.ltb_ge in Hn. rewrite Hn. cbn. repeat split; reflexivity.
   Qed.
 
   Lemma feed_closed c l : c_mode c <> Live -> feed c l = (c, []).
@@ -1038,7 +1049,7 @@ Definition l_wrong_response : bytes := sp w_DATA (hexlify (sp [99; 99] [120])).
 Definition concrete_run (F : fixes) (lines : list bytes) : list out :=
   run_lines F (concrete_if F toy_env toy_sha) bus_mechs [103] (init_world []) lines.
 
-Definition only10a : fixes := {| fx09 := true; fx10a := true; fx10b := false; fx11 := true |}.
+Definition only10a : fixes := {| fx09 := true; fx10a := true; fx10b := false; fx11 := true; fx32 := true |}.
 
 Lemma witnesses :
   (* repaired: the right response is accepted, the wrong one answered REJECTED *)
